@@ -1280,6 +1280,54 @@ func TestVerifC11(t *testing.T) {
 		m, _ := c11Mutate(r, corpus.crls[r.Intn(len(corpus.crls))])
 		crlRun(m, "mutated")
 	}
+	// PEM front of ParseCRL / ParseCertificateList: complete blocks (must behave as the DER inside), blocks of another type, and
+	// look-alikes for which pem.Decode finds no block — the armour prefix alone, a BEGIN line without END, a block cut anywhere
+	// before the end of its END line, a broken base64 body, headers, trailing text. Oracles: no panic, coherence, and for a
+	// complete "X509 CRL" block the same outcome as for its DER. (PEM decoding is not modelled: implementation-side only.)
+	pemRun := func(in []byte, class string) (c11Out, c11Out) {
+		out.Count("class:crl-pem-" + class)
+		a := c11Call(func() (interface{}, error) { return ParseCRL(in) })
+		b := c11Call(func() (interface{}, error) { return ParseCertificateList(in) })
+		check("ParseCRL", in, a)
+		check("ParseCertificateList", in, b)
+		return a, b
+	}
+	pemInputs := append([][]byte{}, corpus.crls...)
+	pemInputs = append(pemInputs, []byte{0x30, 0x03, 0x02, 0x01, 0x01}, []byte{}, []byte{0x30, 0x00})
+	for i, der := range pemInputs {
+		if i >= 6 && !verifkit.Thorough() {
+			break
+		}
+		full := pem.EncodeToMemory(&pem.Block{Type: "X509 CRL", Bytes: der})
+		a, b := pemRun(full, "complete")
+		da := c11Call(func() (interface{}, error) { return ParseDERCRL(der) })
+		db := c11Call(func() (interface{}, error) { return ParseCertificateListDER(der) })
+		if a.String() != da.String() || b.String() != db.String() {
+			out.Fail("pem-crl "+verifkit.Hex(full), "PEM block gives ("+a.String()+" / "+b.String()+"), its DER gives ("+da.String()+" / "+db.String()+")")
+		}
+		pemRun(pem.EncodeToMemory(&pem.Block{Type: "X509 CRL", Headers: map[string]string{"Proc-Type": "4,ENCRYPTED"}, Bytes: der}), "headers")
+		pemRun(pem.EncodeToMemory(&pem.Block{Type: "X509 CRL PARAMETERS", Bytes: der}), "other-type")
+		pemRun(append(append([]byte{}, full...), []byte("trailing text\n")...), "trailing")
+		pemRun(append([]byte("leading text\n"), full...), "leading")
+		for cut := 1; cut <= 32 && cut < len(full); cut++ {
+			pemRun(full[:len(full)-cut], "cut")
+		}
+		for k := 0; k < 12; k++ {
+			pemRun(full[:r.Intn(len(full)+1)], "cut")
+		}
+		bad := append([]byte{}, full...)
+		if len(bad) > 30 {
+			bad[27] = '*'
+		}
+		pemRun(bad, "bad-base64")
+		pemRun(bytes.Replace(full, []byte("-----END X509 CRL-----"), []byte("-----END CERTIFICATE-----"), 1), "end-mismatch")
+	}
+	for _, lit := range []string{"-----BEGIN X509 CRL", "-----BEGIN X509 CRL-----", "-----BEGIN X509 CRL-----\n", "-----BEGIN X509 CRL-----\nMAMCAQE=\n-----END X509 CRL-",
+		"-----BEGIN X509 CRL-----\nMAMCAQE=\n", "-----BEGIN X509 CRL-----\n-----END X509 CRL-----\n", "-----BEGIN X509 CRLX-----\nMAMCAQE=\n-----END X509 CRLX-----\n",
+		"-----BEGIN X509 CRL-----\r\nMAMCAQE=\r\n-----END X509 CRL-----", "-----BEGIN X509 CRL----- \nMAMCAQE=\n-----END X509 CRL-----\n"} {
+		pemRun([]byte(lit), "literal")
+	}
+
 	// random bytes through everything
 	for i := 0; i < verifkit.N(60, 2000); i++ {
 		b := r.Bytes(r.Intn(40))
